@@ -10,6 +10,20 @@ from krrood.entity_query_language.entity import let, entity, set_of, and_, or_, 
 from krrood.entity_query_language.quantify_entity import an
 from krrood.entity_query_language.predicate import symbolic_function
 
+from krrood.entity_query_language.predicate import Symbol as _Symbol
+
+
+@dataclass(eq=False)
+class Knob(_Symbol):
+    name: str
+
+
+@dataclass(eq=False)
+class Door(_Symbol):
+    knob: Knob
+
+
+
 a = args()
 rep = Report("C10", "query shapes (atoms, and_/or_/not_, exists, two variables, attribute chains, index with a user-defined key, method call with user arguments, a symbolic function, contains, flatten over a lazily produced inner iterable) x one-shot generator "
              "domains of 4-5 elements x result quantification (none, AtLeast, AtMost, Range) x k = 0..4 results pulled; event log of domain pulls, property reads and predicate calls", a.out)
@@ -221,6 +235,68 @@ for (sname, mk), (qname, mkq) in itertools.product(SHAPES.items(), QUANTS.items(
         if k == 0 and LOG:
             rep.fail(f"eager-evaluate::{sname}", f"{sname}: evaluate() without next() logged {LOG[:4]}", inp)
             break
+# a second variable that the first results never reach must not be touched (not even by the announcement of the evaluation);
+# and a pattern whose keyword value is a variable over a one-shot generator is built without advancing it
+from krrood.entity_query_language.match import entity_matching
+for label, mk_cond, n_free in (("x.v<9 or y.v==1", lambda x, y: or_(x.v < 9, y.v == 1), 5), ("x.v>100 and y.v==x.v", lambda x, y: and_(x.v > 100, y.v == x.v), 0)):
+    for k in range(0, 4):
+        del LOG[:]
+        xs, ys = make_domains()
+        x = let(Obj, gen("x", xs), name="x")
+        y = let(Obj, gen("y", ys), name="y")
+        q = an(entity(x, mk_cond(x, y)))
+        it = iter(q.evaluate())
+        got = []
+        st, r = guarded(lambda: [got.append(next(it)) for _ in range(k)])
+        inp = {"shape": label, "k": k}
+        rep.case((label, k), sample=inp)
+        pulls_y = [e for e in LOG if e[:2] == ("pull", "y")]
+        if k <= n_free and len(got) == k and pulls_y:
+            rep.fail(f"over-pull-unreached::{label}", f"{label}: {k} results need the first variable only, but {len(pulls_y)} elements of the second domain were pulled", inp)
+            break
+knobs = [Knob(f"K{i}") for i in range(5)]
+doors = [Door(kn) for kn in knobs]
+for variant in ("variable-as-keyword-value", "variable-over-groups"):
+    del LOG[:]
+    inp = {"shape": f"entity_matching(Door, gen)(knob=<{variant}>)"}
+    rep.case(("match", variant), sample=inp)
+    if variant == "variable-as-keyword-value":
+        val = let(Knob, gen("knobs", [knobs[3], knobs[1]]), name="allowed")
+    else:
+        val = let(list, gen("groups", [[knobs[4]], [knobs[1], knobs[2]]]), name="allowed")
+    st, q = guarded(lambda: an(entity_matching(Door, gen("doors", doors))(knob=val)))
+    if st == "exc":
+        rep.fail(f"raised::match::{variant}", f"{inp['shape']}: {type(q).__name__}: {q}", inp)
+        continue
+    if LOG:
+        rep.fail(f"eager-construction::match::{variant}", f"{inp['shape']}: building the pattern advanced a domain generator: {LOG[:4]}", inp)
+        continue
+    it = iter(q.evaluate())
+    st, first = guarded(lambda: next(it))
+    pulls = [e for e in LOG if e[0] == "pull" and e[1] in ("knobs", "groups")]
+    if st == "ok" and len(pulls) > 1:
+        rep.fail(f"over-pull::match::{variant}", f"{inp['shape']}: the first result pulled {len(pulls)} elements of the value variable's domain, 1 suffices", inp)
+# for_all over a lazily produced quantified domain: once no candidate is left, the remaining values cannot change the outcome
+from krrood.entity_query_language.entity import for_all as _for_all
+for limits in ([1000, 1001, 1002, 1003, 1004, 1005], [0, 1, 2, 6, 7, 8, 9], [0, 0, 0, 0, 0, 0, 0], [3, 9, 1, 1]):
+    del LOG[:]
+    xs, _ = make_domains()
+    x = let(Obj, xs, name="x")
+    u = let(Obj, gen("u", [Obj(f"u{i}", v) for i, v in enumerate(limits)]), name="u")
+    q = an(entity(x, _for_all(u, x.v > u.v)))
+    inp = {"shape": "for_all(u, x.v > u.v)", "limits": limits}
+    rep.case(("for_all", tuple(limits)), sample=inp)
+    st, got = guarded(lambda: list(q.evaluate()))
+    if st == "exc":
+        rep.fail("raised::for_all", f"for_all over {limits}: {type(got).__name__}: {got}", inp)
+        continue
+    want = [xo for xo in xs if all(xo._v > l for l in limits)]
+    cut = next((n for n in range(1, len(limits) + 1) if not any(all(xo._v > l for l in limits[:n]) for xo in xs)), len(limits))
+    pulls = [e for e in LOG if e[:2] == ("pull", "u")]
+    if got != want:
+        rep.fail("not-a-prefix::for_all", f"for_all over {limits}: got {got}, want {want}", inp)
+    elif len(pulls) > cut:
+        rep.fail("over-pull::for_all", f"for_all(u, x.v > u.v) with u from a generator over {limits}: {len(pulls)} values of u were pulled, after {cut} no candidate is left", inp)
 # flatten over a lazily produced inner iterable: the k-th flattened value needs k inner pulls, not the whole inner iterable
 for k in range(0, 7):
     del LOG[:]
